@@ -330,8 +330,16 @@ fn run_inner(run: &mut Run, c: &J) -> Outcome {
     let want = ev["res"]["r"].as_str().unwrap_or("");
     let class = format!("{}:{}", ev["op"].as_str().unwrap_or("?"), want);
     let mut writes = 0u64;
+    // C16 for the handles: between a reopen and the first mutating call nothing is written to the medium
+    let mut quiet_since: Option<u64> = None;
+    let mutating = |e: &J| matches!(e["op"].as_str().unwrap_or(""), "OpenW" | "Write" | "FlushH" | "Remove" | "TableOp");
     for pe in c["path"].as_array().cloned().unwrap_or_default().iter().skip(1) {
         let g = exec(run, pe, &mut writes, false);
+        if pe["op"] == "Reopen" && g.r == "Ok" {
+            quiet_since = Some(run.med.counters().writes);
+        } else if mutating(pe) {
+            quiet_since = None;
+        }
         let w = pe["res"]["r"].as_str().unwrap_or("");
         if g.r == "panic" {
             return Outcome { viol: Some(("sio-path", format!("{} on the path panicked at {}", pe["op"], last_panic()))), class };
@@ -345,6 +353,9 @@ fn run_inner(run: &mut Run, c: &J) -> Outcome {
         }
     }
     let g = exec(run, ev, &mut writes, true);
+    if mutating(ev) || ev["op"] == "Reopen" {
+        quiet_since = None;
+    }
     if g.r == "panic" {
         return Outcome { viol: Some(("sio-panic", format!("{} panicked at {}", ev["op"], last_panic()))), class };
     }
@@ -375,6 +386,12 @@ fn run_inner(run: &mut Run, c: &J) -> Outcome {
         let w = expand(wb);
         if g.bytes.as_deref() != Some(&w[..]) {
             return Outcome { viol: Some(("sio-read", format!("Read returned {} bytes, specified {} (or different contents)", g.bytes.map(|b| b.len()).unwrap_or(0), w.len()))), class };
+        }
+    }
+    if let Some(w0) = quiet_since {
+        let w1 = run.med.counters().writes;
+        if w1 != w0 {
+            return Outcome { viol: Some(("sio-quiet", format!("{} in a session that has only opened and read issued {} writes to the medium", ev["op"], w1 - w0))), class };
         }
     }
     if let Some(e) = check_quiet(run, &c["quiet"]) {
